@@ -116,7 +116,7 @@ def corr_interp(ctx: Ctx, mg):
             aim, aimtok = (lambda p, c, z, i, c1=c1: np.array([c1])), "cb1 " + f2b(c1)
         flen = 1 if frel == "one" else max(0, size + frel)
         f = np.array([rng.uniform(-2, 2) for _ in range(flen)])
-        M = rng.choice([0, 1, 2, 3, 3])
+        M = rng.choice([0, 1, 2, 3, 4, 5])     # round 4: also numbers of points different from 3 and from the number of atoms
         q = np.array([[rng.uniform(-3, 3) for _ in range(3)] for _ in range(M)], dtype=float).reshape(M, 3)
         spec = f"{int(store)} {aimtok} {vec(atnums)} {n} " + " ".join(parts)
         args = [d, ds, ordr][:nargs]
@@ -416,7 +416,7 @@ HANDOUT_BODY = r"""
 KEY = P['key']
 atn = np.array(P['atnums']); co = np.array(P['coords'], dtype=float); n = len(atn)
 def atoms():
-    return [AtomGrid(GaussLaguerre(P['nrad'][i]), degrees=[P['degs'][i]], center=co[i], rotate=P['rots'][i]) for i in range(n)]
+    return [AtomGrid(GaussLaguerre(P['nrad'][i]), degrees=[P['degs'][i]], center=co[i].copy(), rotate=P['rots'][i]) for i in range(n)]   # (AtomGrid keeps the centre array it is given)
 ats0 = atoms(); size = sum(g.size for g in ats0)
 A = np.random.default_rng(P['seed']).uniform(0.1, 1, size)
 f = np.random.default_rng(P['seed'] + 1).uniform(-1, 1, size)
@@ -607,9 +607,10 @@ for store in (True, False):
     assert aimw.shape == (size,) and np.array_equal(m.weights, m.atweights * aimw, equal_nan=True), f'{KEY} :: {what}: weights != atweights * aim_weights'
     if A is None:
         assert np.all(np.isfinite(aimw)) and np.all(aimw >= 0) and np.all(aimw <= 1 + 1e-12), f'{KEY} :: {what}: Becke weights outside [0, 1] or not finite (min {np.nanmin(aimw)}, max {np.nanmax(aimw)})'
+    nz = np.abs(m.atweights[m.atweights != 0])
     for amp in P['amps']:
-        if A is not None and amp * scale < 1e-280:
-            continue          # aim * f would be subnormal: the reference itself loses its digits there
+        if A is not None and (amp * scale < 1e-280 or (nz.size and float(nz.min()) * scale < 1e-280)):
+            continue          # aim * f or atweights * aim would be subnormal / underflow: the two evaluation orders legitimately differ there
         f = rs.uniform(-1, 1, size) * amp
         tot = float(m.integrate(f))
         parts = math.fsum(float(ats[k].integrate(aimw[ind[k]:ind[k + 1]] * f[ind[k]:ind[k + 1]])) for k in range(n))
@@ -917,7 +918,7 @@ def oracle_interp(ctx: Ctx, budget):
         P = _mol_params(ctx, degs=(5, 7))
         P["nrad"] = [rng.choice([5, 6]) for _ in P["atnums"]]
         calls = [[], [0], [1], [1, True], [1, False, True], [2, False, True], [1, True, True]]
-        P.update(key="molgrid.MolGrid.interpolate:sum-over-atoms", aim=["becke", "array"][rep % 2], npts=rng.choice([1, 4, 9]),
+        P.update(key="molgrid.MolGrid.interpolate:sum-over-atoms", aim=["becke", "array"][rep % 2], npts=rng.choice([1, 2, 3, 4, 9]),
                  amp=rng.choice([1.0, 1e-12, 1e12]), calls=[calls[0]] + rng.sample(calls[1:], 3 if not large else 6))
         _run(ctx, INTERP_BODY, P, f"oracle:interpolate:{P['aim']}")
 
@@ -929,14 +930,13 @@ def oracle_guards(ctx: Ctx, budget):
         _run(ctx, GUARDS_BODY, P, "oracle:guards", nontrivial=False)
 
 
+ORACLE_PARTS = [("accessor-pairs", oracle_pairs), ("handed-out", oracle_handout), ("extreme-Z", oracle_extreme), ("special-points", oracle_special),
+                ("translation", oracle_translate), ("interpolate", oracle_interp), ("guards", oracle_guards)]
+
+
 def oracle(ctx: Ctx, budget):
-    oracle_pairs(ctx, budget)
-    oracle_handout(ctx, budget)
-    oracle_extreme(ctx, budget)
-    oracle_special(ctx, budget)
-    oracle_translate(ctx, budget)
-    oracle_interp(ctx, budget)
-    oracle_guards(ctx, budget)
+    for _, fn in ORACLE_PARTS:
+        fn(ctx, budget)
 
 
 def corr(ctx: Ctx, mg, ag, bk, od):
